@@ -474,6 +474,15 @@ class List(list, base.Symbolic, pg_typing.CustomTyping):
         root_path=utils.KeyPath(idx, self.sym_path),
     )
     if self._value_spec and flags.is_type_check_enabled():
+      if (isinstance(value, (List, base.Symbolic.DictType))
+          and value.sym_parent is not None
+          and (value.sym_parent is not self
+               or value.sym_path != utils.KeyPath(idx, self.sym_path))):
+        # A container that belongs to another tree is copied (as
+        # `_relocate_if_symbolic` would do below) BEFORE it is applied: the
+        # apply adopts this tree's partial mode, which must not change the
+        # original.
+        value = value.clone()
       value = self._value_spec.element.apply(
           value,
           allow_partial=allow_partial,
